@@ -61,7 +61,7 @@ def run_case(args):
         for rid in case["rules"]:
             try:
                 r = ctx.rule_result(rid)
-                v = r.violations()
+                v = [o for o in r.violations() if (o.rule, o.site, o.construct) not in KNOWN_KEYS()]
                 if v:
                     fired[rid] = [f"{o.site.split('::')[-1]} :: {o.construct[:80]}" for o in v[:4]]
             except AnalysisError as exc:
@@ -101,6 +101,18 @@ def load_cases():
     sys.path.insert(0, os.path.join(VERIF, "selftest"))
     import cases
     return cases.MUTANTS, cases.TWINS
+
+
+def KNOWN_KEYS():
+    from sa.core import load_known
+    global _KK
+    try:
+        return _KK
+    except NameError:
+        _KK = {(e.get("rule"), e.get("site"), e.get("construct")) for e in
+               load_known(os.path.join(os.path.dirname(os.path.dirname(os.path.abspath(__file__))), "known_findings.json"))
+               if e.get("status") == "finding"}
+        return _KK
 
 
 def run(repo, rules=None, jobs=None, ids=None):
